@@ -21,7 +21,7 @@ ASSUMPTIONS = [
     "tolerated difference: an absent optional property may reappear as null / [] / {} or, when the schema declares a default, as that default; date-times are compared as instants (Z vs +00:00)",
     "models whose package does not import are C01's subject and only counted",
 ]
-BOUND = {"quick": "~330 models x <=16 documents", "thorough": "all kinds x all name styles singles + all kind pairs"}
+BOUND = {"quick": "~400 models (47 field kinds) x <=16 documents", "thorough": "all kinds x all name styles singles + all kind pairs"}
 CHUNK = 1
 PACK = 8
 
